@@ -398,3 +398,27 @@ def stable_sort_idx(rows):
         while pos > 0 and _key_lt(tuple(r['context']), tuple(rows[out[pos-1]]['context'])): pos -= 1
         out.insert(pos, j)
     return out
+
+# ---------------------------------------------------------------------------------------------------
+@obligation('C09','cache_long', bounds="Cache (pipes and environments, slice sizes 2 and 25) over 30 concrete items: history of <=2 steps from {read abandoned after j in {1,3,26} items, full read, pickle round trip} chosen by the solver, then a full read: always the 30 items in order",
+            functions=FUNCS, params=lambda tier: [dict(cls=c, k=k) for c in ('pipes','env') for k in (2,25)])
+def cache_long(sym, cls, k):
+    import pickle
+    mk = (lambda: pf.Cache(k)) if cls == 'pipes' else (lambda: ef.Cache(k))
+    item = (lambda i: i) if cls == 'pipes' else (lambda i: {'context': i, 'actions': [0,1], 'rewards': [0,1]})
+    src = [item(i) for i in range(30)]
+    key = (lambda out: list(out)) if cls == 'pipes' else (lambda out: [d['context'] for d in out])
+    flt = mk()
+    hist = []
+    for s in range(sym.choice('steps', [1,2])):
+        op = sym.choice(f'op{s}', ['partial1','partial3','partial26','full','pickle'])
+        hist.append(op)
+        if op.startswith('partial'):
+            it = iter(flt.filter(iter(src)))
+            for _ in range(int(op[7:])): next(it, None)
+            del it
+        elif op == 'full':
+            sym.check(key(flt.filter(iter(src))) == list(range(30)), f"Cache({k}): full read after {hist[:-1]} is not the 30 items")
+        else: flt = pickle.loads(pickle.dumps(flt))
+    got = key(flt.filter(iter(src)))
+    sym.check(got == list(range(30)), f"Cache({k}): the read after {hist} returns {len(got)} items: {got[:5]}...")
